@@ -409,6 +409,11 @@ type pki struct {
 	kind    string
 }
 
+func leftPad32(v *big.Int) []byte {
+	b := v.Bytes()
+	return append(make([]byte, 32-len(b)), b...)
+}
+
 func pemBlock(t string, b []byte) []byte { return pem.EncodeToMemory(&pem.Block{Type: t, Bytes: b}) }
 
 func loadersUnit() harness.Unit {
@@ -502,7 +507,81 @@ func loadersUnit() harness.Unit {
 				}
 			}
 		}
-		c.Sample("X509KeyPair / GMX509KeyPairsSingle / GMX509KeyPairs over all (certificate, key) pairs of 3 SM2 + RSA + P-256 identities")
+		// a private-key file that says one thing with its scalar and another with the optional public
+		// key it carries: scalar of identity j, embedded public point of identity i. A parser may refuse
+		// it; if it returns a key, that key is d and d*G. No loader may pair it with certificate i.
+		for i := 0; i < 3; i++ {
+			for j := 0; j < 3; j++ {
+				if i == j {
+					continue
+				}
+				ki, kj := ks[[]int{5, 8, 9}[i]], ks[[]int{5, 8, 9}[j]]
+				derJ, err := gx509.MarshalSm2UnecryptedPrivateKey(kj.Lib())
+				if err != nil {
+					c.Violate("loader-setup-key", err.Error(), nil, nil)
+					return
+				}
+				pubI := append([]byte{4}, append(leftPad32(ki.Pub.X), leftPad32(ki.Pub.Y)...)...)
+				pubJ := append([]byte{4}, append(leftPad32(kj.Pub.X), leftPad32(kj.Pub.Y)...)...)
+				at := bytes.Index(derJ, pubJ)
+				if at < 0 {
+					c.Note("the PKCS#8 form written by the library does not embed the public key: nothing to forge")
+					continue
+				}
+				forged := append([]byte{}, derJ...)
+				copy(forged[at:], pubI)
+				what := fmt.Sprintf("PKCS#8 key with the scalar of sm2-%d and the embedded public key of sm2-%d", j, i)
+				consistent := func(name string, k *sm2.PrivateKey, err error) {
+					c.Add("evaluations", 1)
+					c.DistinctS("nontrivial", name+"/"+what)
+					if err != nil || k == nil {
+						return
+					}
+					want := refsm2.BaseMul(k.D)
+					if k.D.Cmp(kj.D) != 0 || k.X == nil || k.X.Cmp(want.X) != 0 || k.Y.Cmp(want.Y) != 0 {
+						c.Violate("inconsistent-private-key:"+name, fmt.Sprintf("%s on a %s returns a key whose public point is not d*G (d=%x)", name, what, k.D), nil, nil)
+					}
+				}
+				var k *sm2.PrivateKey
+				if !c.Guard("parse-panic:forged-key", "ParsePKCS8UnecryptedPrivateKey "+what, nil, func() { k, err = gx509.ParsePKCS8UnecryptedPrivateKey(forged) }) {
+					consistent("ParsePKCS8UnecryptedPrivateKey", k, err)
+				}
+				if !c.Guard("parse-panic:forged-key", "ParsePKCS8PrivateKey "+what, nil, func() { k, err = gx509.ParsePKCS8PrivateKey(forged, nil) }) {
+					consistent("ParsePKCS8PrivateKey", k, err)
+				}
+				if !c.Guard("parse-panic:forged-key", "ReadPrivateKeyFromPem "+what, nil, func() { k, err = gx509.ReadPrivateKeyFromPem(pemBlock("PRIVATE KEY", forged), nil) }) {
+					consistent("ReadPrivateKeyFromPem", k, err)
+				}
+				fpem := pemBlock("PRIVATE KEY", forged)
+				ci := items[i]
+				for _, ld := range []struct {
+					name string
+					f    func() error
+				}{
+					{"X509KeyPair", func() error { _, e := gmtls.X509KeyPair(ci.certPEM, fpem); return e }},
+					{"GMX509KeyPairsSingle", func() error { _, e := gmtls.GMX509KeyPairsSingle(ci.certPEM, fpem); return e }},
+					{"GMX509KeyPairs(signing pair)", func() error {
+						_, e := gmtls.GMX509KeyPairs(ci.certPEM, fpem, items[j].certPEM, items[j].keyPEM)
+						return e
+					}},
+					{"GMX509KeyPairs(encryption pair)", func() error {
+						_, e := gmtls.GMX509KeyPairs(items[j].certPEM, items[j].keyPEM, ci.certPEM, fpem)
+						return e
+					}},
+				} {
+					var lerr error
+					c.Add("evaluations", 1)
+					c.DistinctS("nontrivial", ld.name+"/"+what)
+					if c.Guard("loader-panic:forged-key", ld.name+" "+what, nil, func() { lerr = ld.f() }) {
+						continue
+					}
+					if lerr == nil {
+						c.Violate("loader-accepts-forged-key:"+ld.name, fmt.Sprintf("%s pairs certificate sm2-%d with a %s", ld.name, i, what), nil, nil)
+					}
+				}
+			}
+		}
+		c.Sample("X509KeyPair / GMX509KeyPairsSingle / GMX509KeyPairs over all (certificate, key) pairs of 3 SM2 + RSA + P-256 identities; key files whose embedded public key belongs to another scalar")
 	}}
 }
 
